@@ -264,6 +264,8 @@ def run_tasks(ctx, module, func, tasks, timeout=900, workers=None, python_flags=
     tasks = list(tasks)
     if not tasks:
         return []
+    if getattr(ctx, "tier", None) == "quick":
+        timeout = min(timeout, 900)  # quick-tier tasks take seconds; a stuck worker must not hold the check for long
     w = min(workers or n_workers(), len(tasks))
     results = [None] * len(tasks)
     q = queue.Queue()
